@@ -204,6 +204,7 @@ def main(tier):
         "lockstep_inconclusive": stats.get('inconclusive', 0),
         "nfa_dumps_checked": stats.get('nfa_checked', 0), "nfa_states_total": stats.get('nfa_states_total', 0),
         "nfa_lockstep_pairs_checked": stats.get('nfa_pairs_checked', 0),
+        "printed_dfas_checked": stats.get('dfa_dumps_checked', 0), "equivalence_class_tables_checked": stats.get('ec_tables_checked', 0),
         "token_streams_validated": streams,
         "dfa_size_histogram": sizes, "option_histogram": optsh,
         "problem_kinds": stats.get('problem_kinds', {}),
